@@ -17,6 +17,8 @@ func init() {
 				Quick: map[string]int{"PRELUDE": 5, "FULLTRAFFIC": 1}, Thorough: map[string]int{"PRELUDE": 5, "FULLTRAFFIC": 1}, Witnesses: []string{"both-encode-rows", "after-a-cancel-request", "after-an-earlier-session"}},
 			{Pkg: "wire", Entry: "VerifH15", What: "same, with a handler that may keep ONE prepared statement and hand it to every connection (the library never required a fresh one per Parse): serving a connection does not write into what the handler shares",
 				Quick: map[string]int{"PRELUDE": 1, "FULLTRAFFIC": 1, "SHAREDSTMT": 1}, Thorough: map[string]int{"PRELUDE": 1, "SHAREDSTMT": 1}, Witnesses: []string{"both-encode-rows", "one-prepared-statement-for-all-connections"}},
+			{Pkg: "wire", Entry: "VerifH15", What: "same shared statement, with one parameter whose type the handler leaves unspecified while each connection's Parse pre-specifies a type of its own for it (23 on one, 25 on the other): whatever the library does with pre-specified types stays inside the connection",
+				Quick: map[string]int{"PRELUDE": 1, "FULLTRAFFIC": 1, "SHAREDSTMT": 1, "PRESPEC": 1}, Witnesses: []string{"connections-prespecify-different-types-for-a-shared-statement", "one-prepared-statement-for-all-connections"}},
 			{Pkg: "wire", Entry: "VerifH15", What: "same, with a handler that obtains each statement's parameter list from the library's ParseParameters helper and fills in connection-dependent types in place: what one connection's handler writes is not what the library reads for the other",
 				Quick: map[string]int{"PRELUDE": 1, "FULLTRAFFIC": 1, "PARSEPARAMS": 1}, Witnesses: []string{"both-encode-rows", "same-names-on-both"}},
 			{Pkg: "wire", Entry: "VerifH15f", What: "the same lemma on the less travelled paths: each connection optionally skips an oversized message, sends an unknown message type, fails a Bind and is discarded until Sync, runs a COPY-in cycle, and fails a statement with one shared, fully decorated error value re-decorated with the connection's own values; transcripts and callback traces equal those of the same traffic served alone by a fresh server",
